@@ -86,12 +86,14 @@ def center_find(image, centers=1, threshold=.5, blursize=3.):
     bit longer.
     """
     image=copy(image)
+    # work on the x-y plane: the first entry of every other axis, taken by
+    # name (a multi-channel hologram from calc_holo has its illumination axis
+    # first), rows along x and columns along y
+    image = image.isel({dim: 0 for dim in image.dims if dim not in ('x', 'y')})
+    image = image.transpose('x', 'y')
     if blursize>0:
         image.values = gaussian_filter(image.values, blursize)
     col_deriv, row_deriv = image_gradient(image)
-    while col_deriv.ndim > 2:
-        col_deriv = col_deriv[:,:,0]
-        row_deriv = row_deriv[:,:,0]
     res = hough(col_deriv, row_deriv, centers, threshold)
     if centers==1:
         res = res[0]
